@@ -157,6 +157,8 @@ class PoolAdapter:
             return
         if h is None:
             raise AssertionError('running pool refused a job')
+        if self.c.get('FineScan'):
+            self._pausing(h)
         self.handles.append(h)
         self.cnt.append(c)
 
@@ -275,6 +277,32 @@ class PoolAdapter:
             raise ValueError(n)
         return ret
 
+    def _pausing(self, h):
+        """FineScan: the scanner parks at the start of every visit -- where it reads the job's
+        acceptance time -- wherever in its code that visit happens to be"""
+        ad = self
+        cls = h.__class__
+
+        class Parked(cls):
+            def _vget(s):
+                sc = ad.scan
+                if sc is not None and sc.get('co') is not None and \
+                        threading.current_thread() is sc['co'].thread:
+                    k = s._job
+                    while sc['left'] and sc['left'][0] != k and k in sc['left']:
+                        sc['left'].pop(0)          # passed over without a visit
+                    sc['co'].yield_('visit')
+                    if sc['left'] and sc['left'][0] == k:
+                        sc['left'].pop(0)
+                return s.__dict__.get('_time_accepted')
+
+            def _vset(s, v):
+                s.__dict__['_time_accepted'] = v
+            _time_accepted = property(_vget, _vset)
+        Parked.__name__ = cls.__name__
+        Parked.__qualname__ = cls.__qualname__
+        h.__class__ = Parked
+
     def _scan_begin(self):
         """run one handle_event() of the time-limit scanner on a helper thread that parks
         before each job of its snapshot (the copy of the cache) is visited"""
@@ -283,13 +311,13 @@ class PoolAdapter:
         sc = {'left': [], 'real_copy': real_copy}
 
         class VisitDict(dict):
+            """the scan's snapshot: remembers which jobs are still to be visited"""
             def items(self_d):
                 keys = list(dict.keys(self_d))
                 sc['left'] = list(keys)
                 for k in keys:
-                    sc['co'].yield_('visit')
-                    sc['left'].pop(0)
                     yield k, dict.__getitem__(self_d, k)
+                sc['left'] = []
 
         class CopyShim:
             def copy(self_c, x):
